@@ -77,6 +77,16 @@ def run(ctx, idx):
     ctx.extra["augmented_assignments_in_arithmetic_commands"] = n_aug
     # cell-wise: the result has the shape of the inputs and is missing wherever an input is (the arithmetic definitions
     # are per cell; a contraction, a positional operation or a mask-skipping reduction computes something else)
+    # the weights enter every result: a return that never looked at them (a shortcut for one input, say) is not the weighted
+    # definition - with the weight 0 the mean is 0/0, a missing cell, not the input
+    for name in ("WeightedSum", "WeightedMean"):
+        d, r = res[name]
+        wnames = [nm for nm, p_ in d.inputs.items() if p_.is_a(idx, "mpilot.params.ListParameter") and "eight" in nm]
+        for n, s_, v in R.ret_sites(d, r):
+            if isinstance(v, Arr) and wnames:
+                okw = all(("@" + w_) in v.D for w_ in wnames)
+                ctx.ob("C07.d", R.ret_key(d, n) + "::uses-the-weights", d.module.rel, R.line_of(s_), okw, "the returned value is computed from %s" % ", ".join(wnames) if okw else
+                       "this return of %s does not depend on %s at all: for every weight vector the command is defined cell by cell from the weights too (one input with weight 0 gives 0/0, a missing cell - not the input's values)" % (name, ", ".join(wnames)))
     for name in ARITH:
         d, r = res[name]
         for n, s_, v in R.ret_sites(d, r):
